@@ -274,7 +274,8 @@ def ev_geom(g):
     if k == "i":
         evl, lnl, sl, el, _ = ev_geom(g[1])
         evr, lnr, sr, er, _ = ev_geom(g[2])
-        tight_ok = g[2][0] in "sp" and (el or sr)
+        # no blank needed when a parenthesis separates: )( , )5 , 5( , and a complement after a parenthesis: )#3
+        tight_ok = (g[2][0] in "sp" and (el or sr)) or (g[2][0] == "c" and el)
         s = Slot("opt" if tight_ok else "req")
         return evl + [s] + evr, (lambda: ["inter", lnl(), s.lean(), lnr()]), sl, er, 1
     if k == "u":
@@ -320,14 +321,13 @@ def build_value(v):
         ev1[-1].kind = "opt"
         ev2, ln2 = ev_entries(v[2])
         ev2[-1].kind = "opt"
-        # Spec (and MontePy's grammar) have no gap directly after "(" in a FILL/TRCL value: the slot stays empty
-        s0, after = Slot("none"), Slot("req")
-        return ev1 + [Word("("), s0] + ev2 + [Word(")"), after], (lambda: ["numsParen", ln1(), ln2(), after.lean()])
+        s0, after = Slot("opt"), Slot("req")
+        return ev1 + [Word("("), s0] + ev2 + [Word(")"), after], (lambda: ["numsParen", ln1(), s0.lean(), ln2(), after.lean()])
     if k == "paren":
         ev2, ln2 = ev_entries(v[1])
         ev2[-1].kind = "opt"
-        s0, after = Slot("none"), Slot("req")
-        return [Word("("), s0] + ev2 + [Word(")"), after], (lambda: ["paren", ln2(), after.lean()])
+        s0, after = Slot("opt"), Slot("req")
+        return [Word("("), s0] + ev2 + [Word(")"), after], (lambda: ["paren", s0.lean(), ln2(), after.lean()])
     if k == "lattice":
         ev = []
         nums = []
@@ -635,7 +635,8 @@ def layout(built, mode, seed):
         s = e
         nl = next_len(i)
         _nw = next((x for x in flat[i + 1 :] if isinstance(x, Word)), None)
-        _hash = bool(_nw and _nw.t.startswith("#"))
+        # words that must not begin a line inside columns 1-5: '#' (vertical format) and the letter c (comment line)
+        _hash = bool(_nw and (_nw.t.startswith("#") or _nw.t.lower() == "c"))
         must_break = col + 1 + nl > LIMIT
         k = s.kind
         pieces = []
